@@ -268,6 +268,10 @@ PROBES = [
     ('dynamic-actions-list', 'QCheckBox { id: src }\n  QMenu { id: menu; actions: src.checked ? [a, b] : [b, a]\n   QAction { id: a }\n   QAction { id: b }\n  }', None),
     ('attached-dynamic', 'QCheckBox { id: src }\n  QLabel { id: lab; QVBoxLayout.stretch: src.checked ? 1 : 2 }', None),
     ('mixed', 'QCheckBox { id: src; onToggled: lab.setEnabled(false) }\n  QLabel { id: lab; text: "x"; visible: src.checked; font.bold: src.checked }', None),
+    # nested object maps (header views): a dynamic member is 'nested dynamic binding' in generate mode and must be an error in reject mode too
+    ('nested-object-static', 'QTableView { id: view; horizontalHeader.visible: false }', None),
+    ('nested-object-dynamic', 'QCheckBox { id: src }\n  QTableView { id: view; horizontalHeader.visible: src.checked }', None),
+    ('nested-object-mixed', 'QCheckBox { id: src }\n  QTreeView { id: view; header.visible: src.checked; header.defaultSectionSize: 10 }', None),
     ('callback-with-return-annotation', 'QPushButton { id: btn; onClicked: function(): void { btn.setEnabled(false) } }', None),
 ]
 
